@@ -3,6 +3,7 @@ package main
 // Calls: builtins, modular (contract) calls, inlining, interface dispatch, extern models.
 
 import (
+	"regexp"
 	"fmt"
 	"go/types"
 	"sort"
@@ -494,16 +495,32 @@ func (f *Frame) applyModifies(ct *Contract, callee *ssa.Function, env *specEnv, 
 			continue
 		}
 		wild := false
+		var embExcl []string
 		for _, t := range ts {
 			if t.all {
-				wild = true
+				// anyof(*T): a field of a struct embedded in T lives at refs that carry T's embedding bit(s); the same field
+				// heap also holds that struct embedded elsewhere (Config in Writer and in Stack): those are not written
+				bits := embBitsOf(t.ref)
+				if len(bits) == 0 {
+					wild = true
+					continue
+				}
+				var has []string
+				for _, b := range bits {
+					has = append(has, fmt.Sprintf("(= (mod (div r %s) 2) 1)", b))
+				}
+				embExcl = append(embExcl, not(and(has...)))
 			}
 		}
 		if wild {
 			continue // the whole heap is havocked
 		}
 		var excl []string
+		excl = append(excl, embExcl...)
 		for _, t := range ts {
+			if t.all {
+				continue
+			}
 			if t.cond != "" {
 				excl = append(excl, not(and(t.cond, fmt.Sprintf("(= r %s)", t.ref))))
 			} else {
@@ -611,7 +628,14 @@ func (f *Frame) modTargets(x SExpr, env *specEnv) []modTarget {
 					return out
 				}
 			}
-			e.errorf("anyof needs a pointer-to-struct type")
+			if ty, ok := m.Args[0].(SType); ok {
+				if st, ok := f.resolveType(ty.Text).(*types.Slice); ok {
+					// anyof([]T): every element of every slice of T (the whole element heap)
+					hn, hs := e.elemHeap(st.Elem())
+					return []modTarget{{heap: hn, sort: hs, all: true}}
+				}
+			}
+			e.errorf("anyof needs a pointer-to-struct or slice type")
 			return nil
 		}
 		return f.wholeObject(f.specTerm(m, env))
@@ -952,4 +976,15 @@ func (f *Frame) callOrdinal(in ssa.Instruction, callee string) int {
 		}
 	}
 	return 0
+}
+
+var reEmbPow = regexp.MustCompile(`\b[0-9]{13,}\b`)
+
+// embBitsOf: the powers of two (>= 2^40) added to the base in an embedded-struct reference expression.
+func embBitsOf(ref string) []string {
+	var out []string
+	for _, m := range reEmbPow.FindAllString(ref, -1) {
+		out = append(out, m)
+	}
+	return out
 }
